@@ -180,7 +180,10 @@ def r146_rings_agree(ctx, res):
             elif name == "get_circle_point_list":
                 rings[norm_call(c, gparams, gc)] = c
         if not caps:
-            raise AnalysisError("%s: no Circle(...) cap found" % fi.where())
+            # caps built directly from the rings (ConvexPolygon(ring)): nothing to compare, they share the ring by construction
+            res.note("%s %s requests no separate Circle(...) cap; caps and side faces can only share the rings it builds" % (fi.where(), short))
+            n += len(rings)
+            continue
         if not rings:
             res.note("%s %s takes its side-face vertices from the caps themselves (no separate ring)" % (fi.where(), short))
             continue
